@@ -418,7 +418,7 @@ def cases(rng, tier):
                      ["A %s %s ;%s" % (pre, x, y), "\t%s d" % y], ["A %s %s |" % (pre, x), " | %s d" % y]]
             yield Case(lay_req(texts, segs), ("exh-separator", "continuation", "comment", "bar", "tab"), "exh-separator")
     # ---- seeded random streams x layouts
-    n = 2600 if quick else 24000
+    n = 12000 if quick else 100000
     for i in range(n):
         segs = gen_stream(rng, safe=0.85 if i % 3 else 0.3)
         yield make_case(rng, segs, "random-stream")
